@@ -1,12 +1,11 @@
-"""Lean back end for the pure integer decoders of xgi/generators/uniform.py (C16: "the index-to-edge decodings used
-for skip sampling are bijections onto ... tuples and block products").
+"""Lean back end for pure integer kernels of /repo (C16 index decoders, C13 boundary signs, C15 sub-face count).
 
-On every run the *return expression* of the real function is translated, mechanically, from its AST into a Lean 4
-definition over `Nat` (pyvc/lean/decode_theorems.lean holds the spec functions and the proofs, which are checked by
-Lean's kernel against that freshly generated definition).  What the translation assumes / drops is listed in
-ASSUMPTIONS and DROPS below and copied into the evidence.  A changed function body yields a different definition;
-the proofs then fail and the obligations are *undecided* (a failed proof is not a refutation) unless the bounded
-oracle exhibits a failing index, in which case that witness is the violation.
+On every run the relevant expressions / loops of the real functions are translated, mechanically, from their ASTs
+into Lean 4 definitions; pyvc/lean/*.lean hold spec functions and proofs, which Lean's kernel checks against those
+freshly generated definitions.  What each translation assumes and drops is listed per job and copied into the
+evidence.  A changed function yields a different definition (or falls outside the translatable shape); the proofs
+then fail and the obligations are *undecided* - a failed proof is not a refutation - unless a bounded oracle
+exhibits a failing input, which is then the violation.
 """
 import ast
 import os
@@ -18,20 +17,7 @@ from . import extract
 
 ROOT = os.path.dirname(os.path.dirname(os.path.abspath(__file__)))
 UNIFORM = "xgi/generators/uniform.py::"
-TARGETS = {  # function -> (lean def name, parameter sorts)
-    "_index_to_edge_prod": ("decode_prod", [("index", "Nat"), ("n", "Nat"), ("m", "Nat")]),
-    "_index_to_edge_partition": ("decode_part", [("index", "Nat"), ("partition_sizes", "List Nat"), ("m", "Nat")]),
-}
-ASSUMPTIONS = [
-    "arguments of the decoders are non-negative Python ints (index, n, m) / a sequence of non-negative ints (partition_sizes): "
-    "on those, Python's // and % coincide with Lean's Nat division and remainder, ** with ^",
-    "numpy integer arithmetic in np.prod / the int64 products is treated as mathematical (no overflow)",
-    "range(k) enumerates 0..k-1 and range(k - 1, -1, -1) enumerates k-1..0 (k >= 0); int(x) is the identity on integers",
-]
-DROPS = [
-    "a leading `if <cond>: warnings.warn(...)` statement (its only effect is a warning; the theorems assume the index is in range)",
-    "the `try: ... except KeyError: raise Exception(...)` wrapper around the return of _index_to_edge_partition (no KeyError can arise on a list / array)",
-]
+OK_AXIOMS = {"propext", "Classical.choice", "Quot.sound"}
 
 
 class Untranslatable(Exception):
@@ -42,143 +28,294 @@ def _is_minus_one(e):
     return isinstance(e, ast.UnaryOp) and isinstance(e.op, ast.USub) and isinstance(e.operand, ast.Constant) and e.operand.value == 1
 
 
-def _tr(e, names, lists):
-    if isinstance(e, ast.Name):
-        if e.id in names:
+class Tr:
+    """Expression translator.  `nat`: names that are Nat variables; `lists`: names that are List Nat; `subst`: source text
+    (ast.unparse) -> Lean term, tried first (used to abstract dictionary look-ups by a variable); `sub_ok`: allow `-`
+    as truncated subtraction on Nat (the caller states why it cannot underflow)."""
+
+    def __init__(self, nat=(), lists=(), subst=None, sub_ok=False):
+        self.nat, self.lists, self.subst, self.sub_ok = set(nat), set(lists), dict(subst or {}), sub_ok
+
+    def n(self, e):
+        """Nat-valued term."""
+        src = ast.unparse(e)
+        if src in self.subst:
+            return self.subst[src]
+        if isinstance(e, ast.Name):
+            if e.id in self.nat:
+                return e.id
+            raise Untranslatable("name %s" % e.id)
+        if isinstance(e, ast.Constant) and isinstance(e.value, int) and not isinstance(e.value, bool) and e.value >= 0:
+            return str(e.value)
+        if isinstance(e, ast.BinOp):
+            ops = {ast.FloorDiv: "/", ast.Mod: "%", ast.Pow: "^", ast.Mult: "*", ast.Add: "+"}
+            if self.sub_ok:
+                ops[ast.Sub] = "-"
+            for k, s in ops.items():
+                if isinstance(e.op, k):
+                    return "(%s %s %s)" % (self.n(e.left), s, self.n(e.right))
+            raise Untranslatable("operator %s (subtraction is not faithful on Nat)" % type(e.op).__name__)
+        if isinstance(e, ast.Call):
+            f = ast.unparse(e.func)
+            if f == "int" and len(e.args) == 1 and not e.keywords:
+                return self.n(e.args[0])
+            if f in ("np.prod", "numpy.prod", "prod", "math.prod") and len(e.args) == 1 and not e.keywords:
+                return "(%s).prod" % self.lst(e.args[0])
+            if f in ("binom", "comb", "math.comb") and len(e.args) == 2:
+                return "(Nat.choose %s %s)" % (self.n(e.args[0]), self.n(e.args[1]))
+            raise Untranslatable("call %s" % f)
+        if isinstance(e, ast.Subscript) and isinstance(e.value, ast.Name) and e.value.id in self.lists and not isinstance(e.slice, ast.Slice):
+            return "(%s.getD %s 0)" % (e.value.id, self.n(e.slice))
+        raise Untranslatable(src[:60])
+
+    def lst(self, e):
+        if isinstance(e, ast.Name) and e.id in self.lists:
             return e.id
-        raise Untranslatable("name %s" % e.id)
-    if isinstance(e, ast.Constant) and isinstance(e.value, int) and not isinstance(e.value, bool) and e.value >= 0:
-        return str(e.value)
-    if isinstance(e, ast.BinOp):
-        ops = {ast.FloorDiv: "/", ast.Mod: "%", ast.Pow: "^", ast.Mult: "*", ast.Add: "+"}
-        for k, s in ops.items():
-            if isinstance(e.op, k):
-                return "(%s %s %s)" % (_tr(e.left, names, lists), s, _tr(e.right, names, lists))
-        raise Untranslatable("operator %s (subtraction is not faithful on Nat)" % type(e.op).__name__)
-    if isinstance(e, ast.Call):
-        f = ast.unparse(e.func)
-        if f == "int" and len(e.args) == 1 and not e.keywords:
-            return _tr(e.args[0], names, lists)
-        if f in ("np.prod", "numpy.prod", "prod", "math.prod") and len(e.args) == 1 and not e.keywords:
-            return "(%s).prod" % _trlist(e.args[0], names, lists)
-        raise Untranslatable("call %s" % f)
-    if isinstance(e, ast.Subscript) and isinstance(e.value, ast.Name) and e.value.id in lists and not isinstance(e.slice, ast.Slice):
-        return "(%s.getD %s 0)" % (e.value.id, _tr(e.slice, names, lists))
-    raise Untranslatable(ast.dump(e)[:60])
+        if isinstance(e, ast.Subscript) and isinstance(e.value, ast.Name) and e.value.id in self.lists and isinstance(e.slice, ast.Slice):
+            sl = e.slice
+            if sl.upper is None and sl.step is None and sl.lower is not None:
+                return "(%s.drop %s)" % (e.value.id, self.n(sl.lower))
+        raise Untranslatable("list expression %s" % ast.unparse(e))
+
+    def z(self, e):
+        """Int-valued term."""
+        if _is_minus_one(e):
+            return "(-1 : Int)"
+        if isinstance(e, ast.UnaryOp) and isinstance(e.op, ast.USub):
+            return "(-%s)" % self.z(e.operand)
+        if isinstance(e, ast.BinOp) and isinstance(e.op, ast.Pow):
+            return "(%s ^ %s)" % (self.z(e.left), self.n(e.right))
+        if isinstance(e, ast.BinOp) and isinstance(e.op, (ast.Add, ast.Sub, ast.Mult)):
+            s = {ast.Add: "+", ast.Sub: "-", ast.Mult: "*"}[type(e.op)]
+            return "(%s %s %s)" % (self.z(e.left), s, self.z(e.right))
+        if isinstance(e, ast.Call) and ast.unparse(e.func) == "int" and len(e.args) == 1:
+            return self.z(e.args[0])
+        return "(%s : Int)" % self.n(e)
+
+    def rng(self, it):
+        """range(...) -> List Nat term."""
+        if not (isinstance(it, ast.Call) and isinstance(it.func, ast.Name) and it.func.id == "range" and not it.keywords):
+            raise Untranslatable("iteration source %s" % ast.unparse(it))
+        a = it.args
+        if len(a) == 1:
+            return "(List.range %s)" % self.n(a[0])
+        if len(a) == 2:
+            lo, hi = self.n(a[0]), self.n(a[1])
+            return "(List.range' %s (%s - %s))" % (lo, hi, lo)
+        if len(a) == 3 and _is_minus_one(a[1]) and _is_minus_one(a[2]) and isinstance(a[0], ast.BinOp) and isinstance(a[0].op, ast.Sub) \
+                and isinstance(a[0].right, ast.Constant) and a[0].right.value == 1:
+            return "(List.range %s).reverse" % self.n(a[0].left)
+        raise Untranslatable("range form %s" % ast.unparse(it))
 
 
-def _trlist(e, names, lists):
-    if isinstance(e, ast.Name) and e.id in lists:
-        return e.id
-    if isinstance(e, ast.Subscript) and isinstance(e.value, ast.Name) and e.value.id in lists and isinstance(e.slice, ast.Slice):
-        sl = e.slice
-        if sl.upper is None and sl.step is None and sl.lower is not None:
-            return "(%s.drop %s)" % (e.value.id, _tr(sl.lower, names, lists))
-    raise Untranslatable("list expression %s" % ast.unparse(e))
+def _strip(fn):
+    return [st for st in fn.body if not (isinstance(st, ast.Expr) and isinstance(st.value, ast.Constant))]
 
 
-def _return_expr(fn):
-    """The returned list comprehension, after dropping what DROPS lists."""
-    body = [st for st in fn.body if not (isinstance(st, ast.Expr) and isinstance(st.value, ast.Constant))]
+# ------------------------------------------------------------------------------------------------ C16: decoders
+DECODERS = {
+    "_index_to_edge_prod": ("decode_prod", [("index", "Nat"), ("n", "Nat"), ("m", "Nat")]),
+    "_index_to_edge_partition": ("decode_part", [("index", "Nat"), ("partition_sizes", "List Nat"), ("m", "Nat")]),
+}
+
+
+def _decoder_def(fname):
+    lean_name, params = DECODERS[fname]
+    fn = extract.function(UNIFORM + fname)
+    got = [a.arg for a in fn.args.args]
+    if got != [p for p, _ in params]:
+        raise Untranslatable("parameters %s, expected %s" % (got, [p for p, _ in params]))
+    body = _strip(fn)
     if body and isinstance(body[0], ast.If) and not body[0].orelse and all(
             isinstance(s, ast.Expr) and isinstance(s.value, ast.Call) and ast.unparse(s.value.func) in ("warnings.warn", "warn") for s in body[0].body):
         body = body[1:]
     if len(body) == 1 and isinstance(body[0], ast.Try) and len(body[0].body) == 1 and not body[0].orelse and not body[0].finalbody and all(
             ast.unparse(h.type) == "KeyError" and len(h.body) == 1 and isinstance(h.body[0], ast.Raise) for h in body[0].handlers):
         body = body[0].body
-    if len(body) == 1 and isinstance(body[0], ast.Return) and isinstance(body[0].value, ast.ListComp):
-        return body[0].value
-    raise Untranslatable("function body is not `[warn-if;] return [<expr> for r in range(...)]`")
-
-
-def translate(fname):
-    """-> Lean source of the definition generated from the real function."""
-    lean_name, params = TARGETS[fname]
-    fn = extract.function(UNIFORM + fname)
-    got = [a.arg for a in fn.args.args]
-    if got != [p for p, _ in params]:
-        raise Untranslatable("parameters %s, expected %s" % (got, [p for p, _ in params]))
-    comp = _return_expr(fn)
+    if not (len(body) == 1 and isinstance(body[0], ast.Return) and isinstance(body[0].value, ast.ListComp)):
+        raise Untranslatable("function body is not `[warn-if;] return [<expr> for r in range(...)]`")
+    comp = body[0].value
     if len(comp.generators) != 1 or comp.generators[0].ifs or not isinstance(comp.generators[0].target, ast.Name):
         raise Untranslatable("comprehension shape")
     g = comp.generators[0]
     var = g.target.id
-    names = {p for p, s in params if s == "Nat"}
-    lists = {p for p, s in params if s != "Nat"}
-    it = g.iter
-    if not (isinstance(it, ast.Call) and isinstance(it.func, ast.Name) and it.func.id == "range" and not it.keywords):
-        raise Untranslatable("iteration source %s" % ast.unparse(it))
-    a = it.args
-    if len(a) == 1:
-        src = "(List.range %s)" % _tr(a[0], names, lists)
-    elif len(a) == 3 and _is_minus_one(a[1]) and _is_minus_one(a[2]) and isinstance(a[0], ast.BinOp) and isinstance(a[0].op, ast.Sub) \
-            and isinstance(a[0].right, ast.Constant) and a[0].right.value == 1:
-        src = "(List.range %s).reverse" % _tr(a[0].left, names, lists)
-    else:
-        raise Untranslatable("range form %s" % ast.unparse(it))
-    elt = _tr(comp.elt, names | {var}, lists)
+    tr = Tr(nat={p for p, s in params if s == "Nat"} | {var}, lists={p for p, s in params if s != "Nat"})
     sig = " ".join("(%s : %s)" % (p, s) for p, s in params)
     return "/-- GENERATED from %s%s: `%s` -/\ndef %s %s : List Nat :=\n  (%s).map (fun %s => %s)\n" % (
-        UNIFORM, fname, ast.unparse(comp).replace("\n", " "), lean_name, sig, src, var, elt)
+        UNIFORM, fname, ast.unparse(comp).replace("\n", " "), lean_name, sig, tr.rng(g.iter), var, tr.n(comp.elt))
 
 
-THEOREMS = {  # obligation -> (function, theorem name)
-    "length": ("_index_to_edge_prod", "decode_prod_length"),
-    "digits-in-range": ("_index_to_edge_prod", "prod_digits_in_range"),
-    "left-inverse": ("_index_to_edge_prod", "prod_left_inverse"),
-    "injective": ("_index_to_edge_prod", "prod_injective"),
-    "right-inverse": ("_index_to_edge_prod", "prod_right_inverse"),
-    "part:left-inverse": ("_index_to_edge_partition", "part_left_inverse"),
-    "part:digits-in-range": ("_index_to_edge_partition", "part_digits_in_range"),
-    "part:injective": ("_index_to_edge_partition", "part_injective"),
+# ------------------------------------------------------------------------------------------------ C15: sub-face count
+def _subface_count_def():
+    fn = extract.function("xgi/algorithms/simpliciality.py::_max_number_of_subfaces")
+    if [a.arg for a in fn.args.args] != ["min_size", "max_size"]:
+        raise Untranslatable("parameters")
+    body = _strip(fn)
+    if not (len(body) == 3 and isinstance(body[0], ast.Assign) and isinstance(body[1], ast.For) and isinstance(body[2], ast.Return)):
+        raise Untranslatable("body is not `d = <init>; for i in range(..): d -= <term>; return int(d)`")
+    acc = body[0].targets[0]
+    loop = body[1]
+    if not (isinstance(acc, ast.Name) and len(loop.body) == 1 and isinstance(loop.body[0], ast.AugAssign) and isinstance(loop.body[0].op, ast.Sub)
+            and isinstance(loop.body[0].target, ast.Name) and loop.body[0].target.id == acc.id and not loop.orelse and isinstance(loop.target, ast.Name)):
+        raise Untranslatable("loop is not a single `acc -= term`")
+    ret = body[2].value
+    if isinstance(ret, ast.Call) and ast.unparse(ret.func) == "int" and len(ret.args) == 1:
+        ret = ret.args[0]
+    if not (isinstance(ret, ast.Name) and ret.id == acc.id):
+        raise Untranslatable("return value is not the accumulator")
+    tr = Tr(nat={"min_size", "max_size", loop.target.id})
+    return ("/-- GENERATED from xgi/algorithms/simpliciality.py::_max_number_of_subfaces: `%s; for %s in %s: %s` -/\n"
+            "def max_subfaces (min_size max_size : Nat) : Int :=\n  (%s).foldl (fun %s %s => %s - %s) %s\n" % (
+                ast.unparse(body[0]), loop.target.id, ast.unparse(loop.iter), ast.unparse(loop.body[0]),
+                tr.rng(loop.iter), acc.id, loop.target.id, acc.id, tr.z(loop.body[0].value), tr.z(body[0].value)))
+
+
+# ------------------------------------------------------------------------------------------------ C13: boundary signs
+def _boundary_defs():
+    fn = extract.function("xgi/linalg/hodge_matrix.py::boundary_matrix")
+    induced = entry = head = tail = None
+    pos = {}
+    for n in ast.walk(fn):
+        if isinstance(n, ast.Assign) and len(n.targets) == 1:
+            t, v = n.targets[0], n.value
+            if isinstance(t, ast.Name) and t.id == "subfaces_induced_orientation" and isinstance(v, ast.ListComp):
+                induced = v
+            if isinstance(t, ast.Name) and t.id in ("head_idx", "tail_idx") and isinstance(v, ast.Subscript) and ast.unparse(v.value) == "u_simplex" \
+                    and isinstance(v.slice, ast.Constant):
+                pos[t.id] = v.slice.value
+            if isinstance(t, ast.Subscript) and ast.unparse(t.value) == "B":
+                row = ast.unparse(t.slice)
+                if "subface_ID" in row:
+                    entry = v if entry is None else "dup"
+                elif "head_idx" in row:
+                    head = v if head is None else "dup"
+                elif "tail_idx" in row:
+                    tail = v if tail is None else "dup"
+    if None in (induced, entry, head, tail) or "dup" in (entry, head, tail) or set(pos) != {"head_idx", "tail_idx"}:
+        raise Untranslatable("boundary_matrix: the induced-orientation list, the three matrix assignments or head/tail positions were not found exactly once")
+    g = induced.generators
+    if len(g) != 1 or g[0].ifs or not isinstance(g[0].target, ast.Name) or ast.unparse(g[0].iter) != "range(order + 1)":
+        raise Untranslatable("induced orientation is not a comprehension over range(order + 1)")
+    var = g[0].target.id
+    sub = {"orientations[u_simplex_id]": "o_u", "orientations[subface_ID]": "o_f"}
+    tr = Tr(nat={"order", var}, subst=sub, sub_ok=True)
+    tr2 = Tr(nat={"order"}, subst=dict(sub, **{"subfaces_induced_orientation[count]": "(induced o_u order count)"}), sub_ok=True)
+    return ("/-- GENERATED from xgi/linalg/hodge_matrix.py::boundary_matrix: `%s` -/\n"
+            "def induced (o_u order %s : Nat) : Nat := %s\n"
+            "/-- GENERATED: value stored at (face, simplex) in the general branch: `%s` -/\n"
+            "def entry (o_u order count o_f : Nat) : Int := %s\n"
+            "/-- GENERATED: order-1 branch, value stored for u_simplex[%d] (head) and u_simplex[%d] (tail): `%s`, `%s` -/\n"
+            "def entry1_head (o_u : Nat) : Int := %s\ndef entry1_tail (o_u : Nat) : Int := %s\n"
+            "def head_pos : Nat := %d\ndef tail_pos : Nat := %d\n" % (
+                ast.unparse(induced).replace("\n", " "), var, tr.n(induced.elt), ast.unparse(entry).replace("\n", " "), tr2.z(entry),
+                pos["head_idx"], pos["tail_idx"], ast.unparse(head).replace("\n", " "), ast.unparse(tail).replace("\n", " "),
+                tr2.z(head), tr2.z(tail), pos["head_idx"], pos["tail_idx"]))
+
+
+# ------------------------------------------------------------------------------------------------ jobs
+NAT_ASSUME = ("arguments are non-negative Python ints (resp. sequences of them): on those, Python's // and % coincide with Lean's Nat division "
+              "and remainder, ** with ^; range(k) enumerates 0..k-1, range(a, b) a..b-1, range(k - 1, -1, -1) k-1..0; int(x) is the identity on integers")
+JOBS = {
+    "decode_prod": dict(
+        prop="C16", function=UNIFORM + "_index_to_edge_prod", template="decode_theorems.lean", section="_index_to_edge_prod",
+        gen=lambda: _decoder_def("_index_to_edge_prod"),
+        theorems=[("length", "decode_prod_length"), ("digits-in-range", "prod_digits_in_range"), ("left-inverse", "prod_left_inverse"),
+                  ("injective", "prod_injective"), ("right-inverse", "prod_right_inverse")],
+        assumes=[NAT_ASSUME], drops=["a leading `if <cond>: warnings.warn(...)` statement (its only effect is a warning; the theorems assume the index is in range)"]),
+    "decode_part": dict(
+        prop="C16", function=UNIFORM + "_index_to_edge_partition", template="decode_theorems.lean", section="_index_to_edge_partition",
+        gen=lambda: _decoder_def("_index_to_edge_partition"),
+        theorems=[("left-inverse", "part_left_inverse"), ("digits-in-range", "part_digits_in_range"), ("injective", "part_injective")],
+        assumes=[NAT_ASSUME, "numpy integer arithmetic in np.prod is treated as mathematical (no overflow)"],
+        drops=["the `try: ... except KeyError: raise Exception(...)` wrapper around the return (no KeyError can arise on a list / array)"]),
+    "max_subfaces": dict(
+        prop="C15", function="xgi/algorithms/simpliciality.py::_max_number_of_subfaces", template="simpliciality_theorems.lean", section="_max_number_of_subfaces",
+        gen=_subface_count_def,
+        theorems=[("closed-form", "max_subfaces_closed"), ("counts-subsets-by-size", "max_subfaces_spec"), ("non-negative", "max_subfaces_nonneg")],
+        assumes=[NAT_ASSUME, "scipy.special.binom(n, k) on small non-negative ints is the binomial coefficient (float arithmetic treated as exact)",
+                 "the number of k-subsets of an n-set is Nat.choose n k (Mathlib's definition), so the theorem's right-hand side is the number of node sets T of a max_size-face with min_size <= |T| < max_size"],
+        drops=[]),
+    "boundary_signs": dict(
+        prop="C13", function="xgi/linalg/hodge_matrix.py::boundary_matrix", template="boundary_theorems.lean", section="boundary_matrix",
+        gen=_boundary_defs,
+        theorems=[("entries-are-units", "entry_abs"), ("order1-entries-are-units", "entry1_abs"), ("head-tail-positions", "positions"),
+                  ("cancellation-general", "boundary_cancel"), ("cancellation-triangle-v0", "triangle_cancel_v0"),
+                  ("cancellation-triangle-v1", "triangle_cancel_v1"), ("cancellation-triangle-v2", "triangle_cancel_v2")],
+        assumes=["orientations are non-negative ints (0 / 1 in practice); `(o + order - i)` cannot underflow because i ranges over range(order + 1)",
+                 "SimplicialComplex._subfaces(s, all=False) lists itertools.combinations(s, len(s) - 1) in its documented lexicographic order, so the "
+                 "count-th face of the vertex-sorted simplex omits vertex number order - count",
+                 "u_simplex.sort(key=...) yields one fixed total order of the vertices used consistently for a simplex and its faces",
+                 "the face look-up (list(S.edges)[S.edges.members().index(frozenset(subf))]) and the numpy item assignments store exactly the translated value "
+                 "at (row of that face, column of the simplex) - covered by the bounded oracle only"],
+        drops=["everything of boundary_matrix except the induced-orientation comprehension and the right-hand sides of the three matrix assignments (index maps, sorting, look-ups, numpy calls)"]),
 }
-OK_AXIOMS = {"propext", "Classical.choice", "Quot.sound"}
 
 
-def run(outdir):
-    """-> list of dict(name, function, theorem, status in discharged|unknown, reason, secs), lean version string."""
+def run(outdir, prop):
+    """Run every job of `prop`; -> (results, lean version, generated definitions).  A result is
+    dict(job, name, function, theorem, status in discharged|unknown, reason, secs)."""
     os.makedirs(outdir, exist_ok=True)
-    tmpl = open(os.path.join(ROOT, "pyvc", "lean", "decode_theorems.lean")).read()
-    defs, errs = {}, {}
-    for fname in TARGETS:
-        try:
-            defs[fname] = translate(fname)
-        except (Untranslatable, KeyError, SyntaxError) as e:
-            errs[fname] = "outside the translatable subset: %s" % e
-    # one file per function so that a failure in one does not take the other along
-    out = []
-    for fname, (lean_name, _) in TARGETS.items():
-        mine = [(ob, th) for ob, (f, th) in THEOREMS.items() if f == fname]
-        if fname in errs:
-            out += [dict(name=ob, function=fname, theorem=th, status="unknown", reason=errs[fname], secs=0.0) for ob, th in mine]
+    out, defs = [], {}
+    for job, J in JOBS.items():
+        if J["prop"] != prop:
             continue
-        m = re.search(r"-- BEGIN %s\n(.*?)-- END %s\n" % (fname, fname), tmpl, re.S)
-        src = tmpl[:tmpl.index("-- BEGIN ")] + defs[fname] + "\n" + m.group(1) + "\n" + "".join("#print axioms %s\n" % th for _, th in mine)
-        path = os.path.join(outdir, "%s.lean" % lean_name)
+        ths = J["theorems"]
+        try:
+            defs[job] = J["gen"]()
+        except (Untranslatable, KeyError, SyntaxError, IndexError, AttributeError) as e:
+            out += [dict(job=job, name=ob, function=J["function"], theorem=th, status="unknown", secs=0.0,
+                         reason="outside the translatable subset: %s" % e) for ob, th in ths]
+            continue
+        tmpl = open(os.path.join(ROOT, "pyvc", "lean", J["template"])).read()
+        m = re.search(r"-- BEGIN %s\n(.*?)-- END %s\n" % (re.escape(J["section"]), re.escape(J["section"])), tmpl, re.S)
+        src = tmpl[:tmpl.index("-- BEGIN ")] + defs[job] + "\n" + m.group(1) + "\n" + "".join("#print axioms %s\n" % th for _, th in ths)
+        path = os.path.join(outdir, "%s.lean" % job)
         with open(path, "w") as f:
             f.write(src)
         t = time.time()
         try:
-            p = subprocess.run(["lean", path], stdout=subprocess.PIPE, stderr=subprocess.STDOUT, timeout=900, cwd=outdir)
+            p = subprocess.run(["lean", path], stdout=subprocess.PIPE, stderr=subprocess.STDOUT, timeout=1200, cwd=outdir)
             text, rc = p.stdout.decode(), p.returncode
         except (subprocess.TimeoutExpired, FileNotFoundError) as e:
             text, rc = "lean did not finish: %s" % e, 99
         secs = time.time() - t
         errors = [l for l in text.splitlines() if ": error" in l]
-        # axioms each theorem depends on (a failed proof shows up as sorryAx)
-        ax = {}
+        ax = {}  # axioms each theorem depends on (a failed proof - its own or of a lemma it uses - shows up as sorryAx)
         for mm in re.finditer(r"'([\w.]+)' depends on axioms: \[([^\]]*)\]", text):
             ax[mm.group(1)] = {a.strip() for a in mm.group(2).split(",") if a.strip()}
         for mm in re.finditer(r"'([\w.]+)' does not depend on any axioms", text):
             ax[mm.group(1)] = set()
-        for ob, th in mine:
-            if rc != 99 and th in ax and ax[th] <= OK_AXIOMS:  # a failed proof (of it or of a lemma it uses) shows up as sorryAx
-                out.append(dict(name=ob, function=fname, theorem=th, status="discharged", reason=None, secs=secs / len(mine)))
+        for ob, th in ths:
+            if rc != 99 and th in ax and ax[th] <= OK_AXIOMS:
+                out.append(dict(job=job, name=ob, function=J["function"], theorem=th, status="discharged", reason=None, secs=secs / len(ths)))
             else:
                 why = errors[0] if errors else ("depends on %s" % sorted(ax.get(th, {"?"}) - OK_AXIOMS) if th in ax else text[-300:])
-                out.append(dict(name=ob, function=fname, theorem=th, status="unknown", reason="lean: %s" % why, secs=secs / len(mine)))
+                out.append(dict(job=job, name=ob, function=J["function"], theorem=th, status="unknown", reason="lean: %s" % why, secs=secs / len(ths)))
     try:
         ver = subprocess.run(["lean", "--version"], stdout=subprocess.PIPE).stdout.decode().strip()
     except FileNotFoundError:
         ver = "lean not found"
     return out, ver, defs
+
+
+def provider(prop, notes):
+    """EXTRA-style provider (see props.py) for a property whose Lean jobs are registered above."""
+    from .props import obligation
+
+    def fn(pid, tier, seed):
+        res, ver, defs = run(os.path.join(ROOT, "out", pid, "lean" if os.path.realpath(extract.REPO) == "/repo" else "lean-scratch"), prop)
+        obs = []
+        for r in res:
+            short = r["function"].split("::")[-1]
+            o = obligation("%s/lean:%s/%s" % (pid, short, r["name"]), r["status"] == "discharged", reason=r["reason"],
+                           where=r["function"], secs=r["secs"], props=(pid,), clause=r["theorem"])
+            o["status"] = r["status"]  # `unknown`: a failed Lean proof is undecided, never a refutation
+            o["backend"] = "lean4 kernel (%s; Mathlib tactics ring/linarith/simp/omega)" % ver.split(",")[0].replace("Lean (version ", "Lean ")
+            o["kind"] = "lemma"
+            obs.append(o)
+        jobs = [J for J in JOBS.values() if J["prop"] == prop]
+        return dict(obligations=obs, violations=[], bounded=[], functions=sorted({J["function"].split("/")[-1].replace(".py::", ".") for J in jobs}),
+                    trusted=["AST -> Lean translation (pyvc/leanvc.py) of %s: %s" % (J["function"], "; ".join(J["assumes"])) for J in jobs]
+                    + ["Lean 4 kernel and the Mathlib lemmas the proofs cite (axioms allowed: propext, Classical.choice, Quot.sound; checked with #print axioms)"],
+                    assumptions=["extraction drops for %s: %s" % (J["function"].split("::")[-1], "; ".join(J["drops"])) for J in jobs if J["drops"]] + list(notes))
+    return fn
